@@ -12,6 +12,9 @@ static int sl_copy_(char *d, const char *s) { int n = 0; while (s[n]) { d[n] = s
 #ifndef NF
 #define NF 1
 #endif
+#ifndef KINDS
+#define KINDS 6	/* 5: without the EINTR variant of an error return */
+#endif
 static char *cmds[] = {"w", "w!", "w o", "w! o", "wq", "x", "1,2w! o", "w p"};
 #define NCMDS 8
 static char big[3][5002];
@@ -99,12 +102,14 @@ void harness(void)
 	env_fault_n = ENV_NFAULT;
 	for (i = 0; i < NF; i++) {
 		int pos = symx_u8("fpos"), kind = symx_u8("fkind");
-		symx_assume(pos < 8 && kind < 5);	/* kind 0: no fault */
+		symx_assume(pos < 8 && kind < KINDS);	/* kind 0: no fault; 1: error return (EIO); 5: error return (EINTR) */
 		pos = symx_conc(pos);
 		kind = symx_conc(kind);
-		if (kind == 1)
+		if (kind == 1 || kind == 5) {
 			env_fault_kind[pos] = ENV_FAIL;
-		if (kind >= 2) {
+			env_fault_arg[pos] = kind == 5 ? 4 : 0;	/* EINTR */
+		}
+		if (kind >= 2 && kind <= 4) {
 			env_fault_kind[pos] = ENV_SHORT;
 			env_fault_arg[pos] = kind == 2 ? 1 : kind == 3 ? -1 : -2;
 		}
